@@ -1,6 +1,7 @@
 package px
 
 import (
+	"fmt"
 	"reflect"
 
 	"github.com/lyraproj/issue/issue"
@@ -300,7 +301,14 @@ func AssertInstance(pfx interface{}, expected Type, value Value) Value {
 }
 
 func MismatchError(pfx interface{}, expected Type, value Value) issue.Reported {
-	return Error(TypeMismatch, issue.H{`detail`: DescribeMismatch(getPrefix(pfx), expected, DetailedValueType(value))})
+	actual := DetailedValueType(value)
+	detail := DescribeMismatch(getPrefix(pfx), expected, actual)
+	if detail == `` {
+		// the value is not an instance although the type inferred for it is accepted (a Struct accepts a Hash
+		// type on its value type and size alone): there is no difference between the types to describe
+		detail = fmt.Sprintf(` function %s: expects a value of type %s, got %s`, getPrefix(pfx), expected, actual)
+	}
+	return Error(TypeMismatch, issue.H{`detail`: detail})
 }
 
 func TypeMismatchError(pfx interface{}, expected Type, actual Type) issue.Reported {
